@@ -482,6 +482,24 @@ def rule_states(rep):
                 "nothing bounds the number of states",
                 node=n.ast,
             )
+        # a state that becomes the target of a transition without being reused is processed later:
+        # from the binding of the candidate as target every path reaches the enqueue
+        binds = [
+            n for n in g.nodes if n.kind == "stmt" and isinstance(n.ast, ast.Assign)
+            and is_name(n.ast.targets[0], "target_state") and is_name(n.ast.value, "maybe_new_state")
+        ]
+        r.floor("sites making the candidate state the target", len(binds), 1)
+        for n in binds:
+            missed = g.must_pass([n], enq, exits=[e for e in g.all_exits() if e is not g.raise_exit])
+            r.check(
+                not missed,
+                "a new target state is always queued for processing",
+                "create_table:enqueue-missed",
+                "the candidate state can become the target of a transition without being put on the queue (e.g. when "
+                "a kernel-equal state is already waiting there, which `in` cannot tell apart): it is never processed, "
+                "never enters table.states and offers no actions although it is reachable",
+                node=n.ast,
+            )
         # the search: every processed and queued state with an equal kernel is tried (merged for LALR)
         search = next((l for l in sym_loop.body if isinstance(l, ast.For)), None)
         r.need(search is not None, "create_table: search for an existing state not found")
@@ -648,14 +666,14 @@ def rule_reduce_fill(rep):
             "the reduce-filling loops no longer range over every item of every state",
             node=region.item_loop,
         )
-        # lookahead source
-        src = [
-            st for st in walk_no_nested(region.item_loop)
-            if isinstance(st, ast.Assign) and is_name(st.targets[0], unparse(region.iter_expr))
-        ]
+        # lookahead source (an order-only wrapper around the set -- sorted(...), list(...) -- changes nothing)
+        it_e = region.iter_expr
+        while isinstance(it_e, ast.Call) and isinstance(it_e.func, ast.Name) and it_e.func.id in ("sorted", "list", "tuple", "reversed", "iter") and it_e.args:
+            it_e = it_e.args[0]
+        it_name = re.escape(unparse(it_e))
         txt = unparse(region.item_loop)
         r.check(
-            re.search(rf"if itemset_type is LR_1:\s+{unparse(region.iter_expr)} = {region.item_var}\.follow\s+else:\s+{unparse(region.iter_expr)} = follow_sets\[{region.item_var}\.production\.symbol\]", txt) is not None,
+            re.search(rf"if itemset_type is LR_1:\s+{it_name} = {region.item_var}\.follow\s+else:\s+{it_name} = follow_sets\[{region.item_var}\.production\.symbol\]", txt) is not None,
             "LALR: the item's own lookahead; SLR: FOLLOW of the production's symbol",
             "create_table:lookahead-source",
             "the lookahead set used for reductions is no longer item.follow (LALR) / FOLLOW(lhs) (SLR)",
